@@ -1,0 +1,273 @@
+//go:build verif
+
+package leveldb
+
+import (
+	"sync/atomic"
+	"unsafe"
+
+	"github.com/syndtr/goleveldb/leveldb/comparer"
+	"github.com/syndtr/goleveldb/leveldb/storage"
+	"github.com/syndtr/goleveldb/leveldb/util"
+)
+
+// Verification hooks (build tag verif). Every hook is called at a
+// linearization point, after the state change and while the lock that
+// protects that state is still held. With no hooks installed they do nothing.
+
+// VerifTable describes a table file as recorded in a version or an edit.
+type VerifTable struct {
+	Level      int
+	Num, Size  int64
+	Imin, Imax []byte
+}
+
+// VerifInstall describes a version installation (session.setVersion).
+type VerifInstall struct {
+	Session      uintptr
+	OldID, NewID int64
+	HasRec       bool
+	HasJournal   bool
+	JournalNum   int64
+	HasSeq       bool
+	SeqNum       uint64
+	Added        []VerifTable
+	Deleted      []VerifTable // only Level and Num are set
+	Levels       [][]VerifTable
+	Closing      bool
+}
+
+// VerifCompactionInfo describes a table compaction about to run.
+type VerifCompactionInfo struct {
+	Session     uintptr
+	SourceLevel int
+	Typ         int
+	Inputs      [2][]int64
+	MinSeq      uint64
+	Trivial     bool
+}
+
+// VerifHooks is the set of callbacks a checker may install.
+type VerifHooks struct {
+	Trace      func(session uintptr, ev string, a []int64)
+	Gate       func(session uintptr, point string)
+	Install    func(in *VerifInstall)
+	Ref        func(session uintptr, kind string, vid int64, files [][]int64, added, deleted []int64)
+	Compaction func(c *VerifCompactionInfo)
+}
+
+var verifHooks atomic.Value // *VerifHooks
+
+// VerifSetHooks installs (or with nil removes) the hooks.
+func VerifSetHooks(h *VerifHooks) {
+	if h == nil {
+		h = &VerifHooks{}
+	}
+	verifHooks.Store(h)
+}
+
+func verifGet() *VerifHooks {
+	h, _ := verifHooks.Load().(*VerifHooks)
+	return h
+}
+
+func verifSID(s *session) uintptr { return uintptr(unsafe.Pointer(s)) }
+
+func verifB(b bool) int64 {
+	if b {
+		return 1
+	}
+	return 0
+}
+
+func verifTrace(s *session, ev string, a ...int64) {
+	if h := verifGet(); h != nil && h.Trace != nil {
+		h.Trace(verifSID(s), ev, a)
+	}
+}
+
+func verifGate(s *session, point string) {
+	if h := verifGet(); h != nil && h.Gate != nil {
+		h.Gate(verifSID(s), point)
+	}
+}
+
+func verifTables(level int, tf tFiles) []VerifTable {
+	out := make([]VerifTable, 0, len(tf))
+	for _, t := range tf {
+		out = append(out, VerifTable{Level: level, Num: t.fd.Num, Size: t.size,
+			Imin: append([]byte(nil), t.imin...), Imax: append([]byte(nil), t.imax...)})
+	}
+	return out
+}
+
+func verifSetVersion(s *session, r *sessionRecord, old, nv *version) {
+	h := verifGet()
+	if h == nil || h.Install == nil {
+		return
+	}
+	in := &VerifInstall{Session: verifSID(s), OldID: -1, NewID: nv.id, Closing: nv.closing}
+	if old != nil {
+		in.OldID = old.id
+	}
+	if r != nil {
+		in.HasRec = true
+		in.HasJournal = r.has(recJournalNum)
+		in.JournalNum = r.journalNum
+		in.HasSeq = r.has(recSeqNum)
+		in.SeqNum = r.seqNum
+		for _, t := range r.addedTables {
+			in.Added = append(in.Added, VerifTable{Level: t.level, Num: t.num, Size: t.size,
+				Imin: append([]byte(nil), t.imin...), Imax: append([]byte(nil), t.imax...)})
+		}
+		for _, t := range r.deletedTables {
+			in.Deleted = append(in.Deleted, VerifTable{Level: t.level, Num: t.num})
+		}
+	}
+	for level, tf := range nv.levels {
+		in.Levels = append(in.Levels, verifTables(level, tf))
+	}
+	h.Install(in)
+}
+
+func verifRef(s *session, kind string, vid int64, files []tFiles, d *vDelta) {
+	h := verifGet()
+	if h == nil || h.Ref == nil {
+		return
+	}
+	var fl [][]int64
+	for _, tf := range files {
+		var l []int64
+		for _, t := range tf {
+			l = append(l, t.fd.Num)
+		}
+		fl = append(fl, l)
+	}
+	var added, deleted []int64
+	if d != nil {
+		added = append(added, d.added...)
+		deleted = append(deleted, d.deleted...)
+	}
+	h.Ref(verifSID(s), kind, vid, fl, added, deleted)
+}
+
+func verifCompaction(db *DB, c *compaction, minSeq uint64, trivial bool) {
+	h := verifGet()
+	if h == nil || h.Compaction == nil {
+		return
+	}
+	ci := &VerifCompactionInfo{Session: verifSID(db.s), SourceLevel: c.sourceLevel, Typ: c.typ, MinSeq: minSeq, Trivial: trivial}
+	for i, tf := range c.levels {
+		for _, t := range tf {
+			ci.Inputs[i] = append(ci.Inputs[i], t.fd.Num)
+		}
+	}
+	h.Compaction(ci)
+}
+
+// ---- exported helpers for checkers (same package access, no behaviour change) ----
+
+// VerifSessionID identifies the DB's session in hook callbacks.
+func VerifSessionID(db *DB) uintptr { return verifSID(db.s) }
+
+// VerifVersion returns the tables of the current version, per level, and its id.
+func VerifVersion(db *DB) (id int64, levels [][]VerifTable) {
+	v := db.s.version()
+	defer v.release()
+	for level, tf := range v.levels {
+		levels = append(levels, verifTables(level, tf))
+	}
+	return v.id, levels
+}
+
+// VerifSeq returns the published sequence number.
+func VerifSeq(db *DB) uint64 { return db.getSeq() }
+
+// VerifMinSeq returns the smallest sequence a snapshot may still need.
+func VerifMinSeq(db *DB) uint64 { return db.minSeq() }
+
+// VerifFileRefs returns the reference loop's table reference counters.
+func VerifFileRefs(db *DB) map[int64]int {
+	ch := make(chan map[int64]int)
+	select {
+	case db.s.fileRefCh <- ch:
+		return <-ch
+	case <-db.s.closeC:
+		return nil
+	}
+}
+
+// VerifRotateMem freezes the write buffer and schedules its flush; with wait
+// it also waits for the flush. Same calls the repository's tests use.
+func VerifRotateMem(db *DB, wait bool) error {
+	select {
+	case db.writeLockC <- struct{}{}:
+	case <-db.closeC:
+		return ErrClosed
+	}
+	defer func() { <-db.writeLockC }()
+	mdb := db.getEffectiveMem()
+	if mdb == nil {
+		return ErrClosed
+	}
+	empty := mdb.Len() == 0
+	mdb.decref()
+	if empty {
+		return nil
+	}
+	_, err := db.rotateMem(0, wait)
+	return err
+}
+
+// VerifWaitMemCompaction waits for a pending buffer flush.
+func VerifWaitMemCompaction(db *DB) error { return db.compTriggerWait(db.mcompCmdC) }
+
+// VerifWaitTableCompaction waits until table compaction has nothing to do.
+func VerifWaitTableCompaction(db *DB) error { return db.compTriggerWait(db.tcompCmdC) }
+
+// VerifCompactLevel runs a range compaction of one level (level < 0: all).
+func VerifCompactLevel(db *DB, level int, r util.Range) error {
+	return db.compTriggerRange(db.tcompCmdC, level, r.Start, r.Limit)
+}
+
+// VerifSetMemdbMaxLevel sets the testing knob that bounds the flush level.
+func VerifSetMemdbMaxLevel(db *DB, n int) { db.memdbMaxLevel = n }
+
+// VerifIComparer exposes the internal-key comparer built over cmp.
+func VerifIComparer(cmp comparer.Comparer) comparer.Comparer { return &iComparer{cmp} }
+
+// VerifMakeInternalKey builds an internal key. kind: 0 delete, 1 value.
+func VerifMakeInternalKey(ukey []byte, seq uint64, kind int) []byte {
+	return makeInternalKey(nil, ukey, seq, keyType(kind))
+}
+
+// VerifParseInternalKey splits an internal key.
+func VerifParseInternalKey(ik []byte) (ukey []byte, seq uint64, kind int, err error) {
+	u, s, kt, e := parseInternalKey(ik)
+	return u, s, int(kt), e
+}
+
+// VerifKeyMaxSeq is the largest sequence number.
+const VerifKeyMaxSeq = uint64(keyMaxSeq)
+
+// VerifTableFd returns the storage descriptor of table num.
+func VerifTableFd(num int64) storage.FileDesc {
+	return storage.FileDesc{Type: storage.TypeTable, Num: num}
+}
+
+// VerifHasFrozenMem reports whether a frozen buffer exists.
+func VerifHasFrozenMem(db *DB) bool {
+	m := db.getFrozenMem()
+	if m == nil {
+		return false
+	}
+	m.decref()
+	return true
+}
+
+// VerifJournalNums returns the live and frozen journal numbers (0: none).
+func VerifJournalNums(db *DB) (cur, frozen int64) {
+	db.memMu.RLock()
+	defer db.memMu.RUnlock()
+	return db.journalFd.Num, db.frozenJournalFd.Num
+}
